@@ -63,6 +63,14 @@ func properties() map[string]*PropertySpec {
 			nat("H_C14_behera_ctor", "ctor", "every subset of {grace, expire, error}; error over all uint values", ""),
 			nat("H_C01_delete2", "delete ok", "request direction: reference client encoding of every ordered pair of kinds decoded by the real decoder", ""),
 		}})
+	add(&PropertySpec{ID: "C03",
+		Functions: "Mux.{Bind,Search,ExtendedOperation,Modify,Add,Delete,DefaultRoute,Unbind}, (*Mux).serve, (*simpleBindRoute|searchRoute|extendedRoute|modifyRoute|addRoute|deleteRoute).match, newRequest, (*Request).NewResponse, (*ResponseWriter).Write, (*conn).serveRequests",
+		Outside:   []string{"route tables longer than 2 (quick) / 3 (thorough)", "criteria over one-character ASCII strings (empty / equal / case variant / different); Unicode case folding of strings.EqualFold", "the filter text of a request is go-ldap's decompiler output: any one-character ASCII text"},
+		Harnesses: []HarnessSpec{
+			nat("H_C03_dispatch", "served", "<= 2 routes of 6 kinds with every criteria subset, 0..2 default-route registrations, unbind route or not, request of 6 kinds, scope any int64 on routes / 0..2 on requests", "quick"),
+			nat("H_C03_dispatch3", "served", "as quick with <= 3 routes", "thorough"),
+			nat("H_C03_pairing", "paired", "serveRequests with <= 3 requests: one serve call per request with its own (writer, request) pair", ""),
+		}})
 	add(&PropertySpec{ID: "C02",
 		Functions: "(*conn).readRequest, (*conn).readPacket, newRequest, newMessage, (*packet).{basicValidation,requestPacket,requestType,requestMessageID,simpleBindParameters,searchParmeters,modifyParameters,addParameters,deleteParameters,extendedOperationName,controlPacket,assert,assertApplicationRequest}, decodeControl, decodeAttribute, NewControl*",
 		Outside:   []string{"byte-level framing (length octets, truncation, EOC, oversize): the asn1-ber reader's error outcome by contract (DESIGN §5.1)", "panics inside asn1-ber's reader and go-ldap's DecompileFilter (it recovers)", "universal REAL and GeneralizedTime payloads (opaque values)", "trees deeper than 5 below the envelope or wider than the stated widths"},
